@@ -50,7 +50,7 @@ def g1(ctx):
         q2 = ctx.explore(k2)
         P2 = planner_events(ctx, q2)
         okc = bool(P2) and all(VAL[q2.E[e][2]['args'][1]][0] == 'sym' and VAL[q2.E[e][2]['args'][1]][1] == 'app' and
-                               VAL[q2.E[e][2]['args'][1]][2] in T.by_role['capacity'] and VAL[VAL[q2.E[e][2]['args'][1]][4]][1] == 'param' for e in P2)
+                               VAL[q2.E[e][2]['args'][1]][2] in T.need('capacity') and VAL[VAL[q2.E[e][2]['args'][1]][4]][1] == 'param' for e in P2)
         okd = all(path_class(ctx, q2, arg_role(q2.E[e][2], 'path')) in ('Base', 'Temp') for e in q2.prim_edges('list_dir'))
         out.append(inst('G1', 'maintain|capacity accessor and directory of the same object', okc and okd,
                         'maintenance plans with this cache directory\'s own capacity over its own directory' if okc and okd else
